@@ -291,6 +291,12 @@ func (s *DescStats) MarshalBinary() (data []byte, err error) {
 }
 
 func (s *DescStats) UnmarshalBinary(data []byte) error {
+	// do not rely on the receiver having been built by NewDescStats
+	// (MultipartReply decodes into new(DescStats))
+	if len(s.MfrDesc) != DESC_STR_LEN || len(s.HWDesc) != DESC_STR_LEN || len(s.SWDesc) != DESC_STR_LEN ||
+		len(s.SerialNum) != SERIAL_NUM_LEN || len(s.DPDesc) != DESC_STR_LEN {
+		*s = *NewDescStats()
+	}
 	n := 0
 	copy(s.MfrDesc, data[n:])
 	n += len(s.MfrDesc)
